@@ -216,6 +216,11 @@ func (m *machine) reportDeadlock() {
 			desc += fmt.Sprintf("[thread %d %s blocked]", t.id, t.name)
 		}
 	}
+	if m.wedgeLabel != "" {
+		// every thread blocked inside a MustReturn region: the region does not return
+		m.recordViolation(m.wedgeLabel, "wedge", map[string]string{"threads": desc})
+		m.abort(abortViolation, m.wedgeLabel)
+	}
 	m.recordViolation("deadlock", "deadlock", map[string]string{"threads": desc})
 	m.abort(abortDeadlock, "all threads blocked: "+desc)
 }
